@@ -241,6 +241,7 @@ func (c *Ctx) checkMatMul(oi *opInfo) {
 
 	// vector promotions: A (n) -> (1,n) prepended; B (n) -> (n,1) appended; each is undone on its own
 	c.checkMatMulUnpromote(apply)
+	c.checkBatchedMatMul(oi)
 	got := c.successTerms(apply)
 	c.note("R16", "R16:matmul:terms", c.pos(apply.Pos()), strings.Join(got, " | "))
 }
@@ -323,4 +324,81 @@ func (c *Ctx) checkMatMulUnpromote(apply *ssa.Function) {
 		}
 	}
 	c.decide(bad == "", "R16", key, c.pos(apply.Pos()), "each vector promotion is undone on its own", bad)
+}
+
+// checkBatchedMatMul: the per-matrix product of MatMul multiplies the slice of A with the slice of B, in that
+// order, taken with the same slicers, into the slice of the output taken with those slicers; the output has
+// A's rows and B's columns.
+func (c *Ctx) checkBatchedMatMul(oi *opInfo) {
+	key := "R16:matmul:batched-operands"
+	var f *ssa.Function
+	var mm *ssa.Call
+	for g := range c.reachFrom([]*ssa.Function{oi.methods["Apply"]}) {
+		if recvNamed(g) != oi.named || g == oi.methods["Apply"] {
+			continue
+		}
+		for _, b := range g.Blocks {
+			for _, in := range b.Instrs {
+				if cl, ok := in.(*ssa.Call); ok {
+					if o := calleeObj(cl); o != nil && qualName(o) == pkgTensor+".MatMul" {
+						f, mm = g, cl
+					}
+				}
+			}
+		}
+	}
+	if mm == nil || len(f.Params) < 3 {
+		c.undecided("R16", key, c.pos(oi.methods["Apply"].Pos()), "no helper of MatMul multiplying matrix slices with tensor.MatMul found")
+		return
+	}
+	A, B := f.Params[1], f.Params[2]
+	sliceOf := func(v ssa.Value) (recv ssa.Value, slicers ssa.Value, ok bool) {
+		if ci, isCI := v.(*ssa.ChangeInterface); isCI {
+			v = ci.X
+		}
+		ex, isEx := v.(*ssa.Extract)
+		if !isEx || ex.Index != 0 {
+			return nil, nil, false
+		}
+		cl, isCall := ex.Tuple.(*ssa.Call)
+		if !isCall {
+			return nil, nil, false
+		}
+		nm, r := tensorMethod(cl)
+		if nm != "Slice" {
+			return nil, nil, false
+		}
+		return r, sliceArgs(cl), true
+	}
+	args := mm.Common().Args
+	ra, sa, okA := sliceOf(args[0])
+	rb, sb, okB := sliceOf(args[1])
+	bad := ""
+	switch {
+	case !okA || !okB:
+		bad = "the operands of the per-matrix product are not slices of the two tensors"
+	case ra != ssa.Value(A) || rb != ssa.Value(B):
+		bad = "the per-matrix product does not multiply (slice of A) x (slice of B) in that order"
+	case sa != sb:
+		bad = "the two operands of the per-matrix product are cut with different slicers"
+	}
+	if bad == "" {
+		// the product is written into the slice of the output cut with the same slicers
+		okOut := false
+		for _, opt := range varargElems(args[len(args)-1]) {
+			oc, isCall := opt.(*ssa.Call)
+			if !isCall {
+				continue
+			}
+			if o := calleeObj(oc); o != nil && qualName(o) == pkgTensor+".WithReuse" {
+				if _, so, ok := sliceOf(oc.Common().Args[0]); ok && so == sa {
+					okOut = true
+				}
+			}
+		}
+		if !okOut {
+			bad = "the product is not written into the output slice cut with the same slicers as the operands"
+		}
+	}
+	c.decide(bad == "", "R16", key, c.pos(mm.Pos()), "out[s] = A[s] x B[s] for the same slicers s", bad)
 }
